@@ -740,7 +740,9 @@ theorem c05_paths_from_members (cfg : Cfg) (env : Env) (n : Node) (v : V)
 
 /-! ### resolution -/
 
-/-- **C05, resolution** (one nesting level): if every member's issue path addresses a location in
+/-- (WEAK — superseded by `c05_resolves_level` / `c05_resolves_nested` in Proofs/C05Nest.lean: `RoP` accepts every path whose
+    parent resolves, whatever the issue; `hm` / `hk` quantify over every member id; audit M1, M2.)
+    **C05, resolution** (one nesting level): if every member's issue path addresses a location in
     the value the member was asked about, and key/element schemas report at the key itself, then
     every path the composite reports reaches a value of the input or the parent of a missing key. -/
 theorem c05_path_resolves (cfg : Cfg) (env : Env) (n : Node) (v : V)
@@ -759,7 +761,9 @@ theorem c05_path_resolves (cfg : Cfg) (env : Env) (n : Node) (v : V)
 
 /-! ### single fault -/
 
-/-- **C05, single fault**: if the only members that reject are those asked about parts of `v` at
+/-- (WEAK — superseded by `c05_single_fault_nested` in Proofs/C05Nest.lean: the hypotheses below quantify over EVERY member
+    id `m`, not the member asked at the position, so no heterogeneous container meets them; audit H3.)
+    **C05, single fault**: if the only members that reject are those asked about parts of `v` at
     segment `s₀` (every other asked member accepts, no container-level issue), every reported path
     starts with `s₀` — it is the planted location, or lies inside it — or is the root. Stated on
     `From`: a member issue filed under another segment cannot exist when that member accepted. -/
@@ -840,7 +844,8 @@ theorem c05_array_drops_child_path (cfg : Cfg) :
 
 /-! ### several faults; every issue of a member, not only the first -/
 
-/-- **C05, k faults**: if the only members that reject are those asked about the parts of `v` at the
+/-- (WEAK, as `c05_single_fault`: hypotheses over every member id.)
+    **C05, k faults**: if the only members that reject are those asked about the parts of `v` at the
     segments in `S` (every other asked member accepts), every reported path is the root, a single own
     key, or starts with one of the faulty segments — whatever the number of issues each faulty member
     reports. `c05_single_fault` is the case `S = [s₀]`. -/
